@@ -40,6 +40,7 @@ type SpecEnv struct {
 	inQuant int
 	what    string
 	iter    *iterState
+	nowT    *Term // overrides the clock (child finish time at a join)
 }
 
 func (env *SpecEnv) child() *SpecEnv {
@@ -246,15 +247,24 @@ func (env *SpecEnv) eval(x *SExpr) Value {
 			binders = append(binders, fmt.Sprintf("(%s %s)", name, ls[0].Sort))
 			val := Value{T: t, L: []Term{{name, ls[0].Sort}}}
 			c.vars[v.Name] = val
-			if ls[0].Kind == KRef {
-				guards = append(guards, Le(Zero, val.L[0]))
-			}
+			// (no range guard on reference variables: references are never
+			// negative, and heap arrays are total, so the unguarded form is the
+			// same statement about real objects and much friendlier to E-matching)
 		}
 		body := c.bool1(x.Args[0])
 		if x.Op == "forall" {
 			body = Implies(And(guards...), body)
 		} else {
 			body = And(append(guards, body)...)
+		}
+		if x.Op == "forall" {
+			var names []string
+			for _, b := range binders {
+				names = append(names, strings.Fields(b[1:])[0])
+			}
+			if pats := autoPatterns(body.S, names); pats != "" {
+				return boolV(Term{fmt.Sprintf("(forall (%s) (! %s %s))", strings.Join(binders, " "), body.S, pats), SBool})
+			}
 		}
 		return boolV(Term{fmt.Sprintf("(%s (%s) %s)", x.Op, strings.Join(binders, " "), body.S), SBool})
 	}
@@ -301,7 +311,12 @@ func (env *SpecEnv) evalIdent(name string) Value {
 		if env.view != nil && env.view == env.old {
 			return Value{T: tInt, L: []Term{env.oldNow}}
 		}
+		if env.nowT != nil {
+			return Value{T: tInt, L: []Term{*env.nowT}}
+		}
 		return Value{T: tInt, L: []Term{env.st.now}}
+	case "spawntime":
+		return Value{T: tInt, L: []Term{env.oldNow}}
 	}
 	if c, ok := env.e.eng.specs.Consts[name]; ok {
 		x, err := parseSpecExpr(c)
@@ -676,13 +691,10 @@ func (env *SpecEnv) evalIndex(x *SExpr) Value {
 	case *types.Slice:
 		return env.elemAt(base, idx.L[0])
 	case *types.Map:
-		ok, v := env.e.mapLookup(env.st, base, idx, env.view)
-		z := zeroValue(u.Elem())
-		out := Value{T: u.Elem(), L: make([]Term, len(v.L))}
-		for i := range v.L {
-			out.L[i] = Ite(ok, v.L[i], z.L[i])
-		}
-		return out
+		// m[k] in a spec is the stored value; it is only meaningful under haskey(m, k)
+		_, v := env.e.mapLookup(env.st, base, idx, env.view)
+		_ = u
+		return v
 	case *types.Basic:
 		if u.Info()&types.IsString != 0 {
 			// byte at index as a one-character string
@@ -831,6 +843,25 @@ func (env *SpecEnv) evalCall(x *SExpr) Value {
 		fname := env.e.sprintfName(f.S, sorts)
 		env.e.declareFun(fname, sorts, SStr)
 		return strV(App(SStr, fname, leaves...))
+	case "atomicbool":
+		// value of a sync/atomic.Bool (by address)
+		v := ev(0)
+		arr := env.e.cur(env.st, "ghost:atomicBool", SBool, false)
+		if env.view != nil {
+			arr = env.e.curIn(env.view, "ghost:atomicBool", SBool, false)
+		}
+		return boolV(Select(arr, refLeaf(v)))
+	case "spawned":
+		// spawned("<closure key>", x): a child goroutine was started for x
+		if args[0].Op != "str" {
+			specFail("spawned: first argument must be the closure's key")
+		}
+		key := "ghost:spawned:" + args[0].Name
+		arr := env.e.cur(env.st, key, SBool, false)
+		if env.view != nil {
+			arr = env.e.curIn(env.view, key, SBool, false)
+		}
+		return boolV(Select(arr, refLeaf(ev(1))))
 	case "boundmethod":
 		// boundmethod(f, "(*server.Target).rewrite", recv): f is the method value recv.rewrite
 		f := ev(0)
@@ -971,6 +1002,41 @@ func (env *SpecEnv) evalCall(x *SExpr) Value {
 		return boolV(BoolLit(env.e.lockHeldSpec(env.st, ev(0), name == "held")))
 	case "emitted", "none", "count", "before", "first", "only", "last_is":
 		return env.evalTrace(name, args)
+	case "all":
+		// all(E, cond): cond holds for every event named E on this path; inside
+		// cond the event's arguments are $0, $1, ...
+		n := patName(args[0])
+		var cs []Term
+		for _, evn := range env.trace {
+			if evn.MayLoop != nil {
+				if loopMayEmit(evn, n) {
+					return boolV(False)
+				}
+				continue
+			}
+			if evn.Name != n {
+				continue
+			}
+			c := env.child()
+			for i, a := range evn.Args {
+				var t types.Type = tRef
+				switch a.Sort {
+				case SBool:
+					t = tBool
+				case SStr:
+					t = tString
+				case SF64:
+					t = tF64
+				}
+				c.vars[fmt.Sprintf("$%d", i)] = Value{T: t, L: []Term{a}}
+			}
+			body := c.bool1(args[1])
+			if evn.Cond.S != "" {
+				body = Implies(evn.Cond, body)
+			}
+			cs = append(cs, body)
+		}
+		return boolV(And(cs...))
 	}
 	// spec function?
 	if sf, ok := env.e.eng.specs.SpecFuncs[name]; ok {
@@ -1234,4 +1300,102 @@ func (env *SpecEnv) evalTrace(pred string, args []*SExpr) Value {
 
 func ssautilAll(eng *Engine) map[*ssa.Function]bool {
 	return ssautil.AllFunctions(eng.prog)
+}
+
+// autoPatterns picks E-matching triggers for a universally quantified spec
+// formula: for every bound variable the smallest (select A v) / (f v) terms in
+// which it occurs directly as an argument and A does not mention bound variables.
+// Returns "" when some variable has no such term (the solver then chooses).
+func autoPatterns(body string, vars []string) string {
+	isVar := map[string]bool{}
+	for _, v := range vars {
+		isVar[v] = true
+	}
+	cands := map[string][]string{}
+	// scan all parenthesised subterms
+	var stack []int
+	for i := 0; i < len(body); i++ {
+		switch body[i] {
+		case '(':
+			stack = append(stack, i)
+		case ')':
+			st := stack[len(stack)-1]
+			stack = stack[:len(stack)-1]
+			sub := body[st : i+1]
+			if len(sub) > 200 || strings.HasPrefix(sub, "(forall") || strings.HasPrefix(sub, "(exists") || strings.HasPrefix(sub, "(!") {
+				continue
+			}
+			toks := strings.Fields(strings.NewReplacer("(", " ", ")", " ").Replace(sub))
+			if len(toks) < 2 {
+				continue
+			}
+			head := toks[0]
+			if head != "select" && !strings.HasPrefix(head, "sf.") {
+				continue
+			}
+			// direct arguments: split top level
+			args := topArgs(sub)
+			var mentioned []string
+			ok := true
+			for ai, a := range args[1:] {
+				if isVar[a] {
+					mentioned = append(mentioned, a)
+					continue
+				}
+				for _, t := range strings.Fields(strings.NewReplacer("(", " ", ")", " ").Replace(a)) {
+					if isVar[t] {
+						if head == "select" && ai == 0 {
+							ok = false // array expression depends on a bound variable
+						} else {
+							ok = false
+						}
+					}
+				}
+			}
+			if !ok || len(mentioned) == 0 {
+				continue
+			}
+			for _, v := range mentioned {
+				cands[v] = append(cands[v], sub)
+			}
+		}
+	}
+	// one multi-pattern covering all variables, built from the shortest candidate per variable
+	var parts []string
+	seen := map[string]bool{}
+	for _, v := range vars {
+		c := cands[v]
+		if len(c) == 0 {
+			return ""
+		}
+		best := c[0]
+		for _, x := range c {
+			if len(x) < len(best) {
+				best = x
+			}
+		}
+		if !seen[best] {
+			seen[best] = true
+			parts = append(parts, best)
+		}
+	}
+	return ":pattern (" + strings.Join(parts, " ") + ")"
+}
+
+func topArgs(sexp string) []string {
+	inner := sexp[1 : len(sexp)-1]
+	var out []string
+	i := 0
+	for i < len(inner) {
+		for i < len(inner) && inner[i] == ' ' {
+			i++
+		}
+		if i >= len(inner) {
+			break
+		}
+		j := sortEnd(inner, i)
+		out = append(out, inner[i:j])
+		i = j
+	}
+	return out
 }
